@@ -11,7 +11,7 @@ from a loop head back to the head (or, for iterator structs, from `next` entry t
   W-INIT     the cursors' initial values have the documented affine form: first entry word at base+4 (base if the
              slice was pre-cut by 4), first payload at base + 4 + 4n (array) / base + 4 + 8n (object).
 """
-from sym import Explorer, show, lin, lin_sub, subterms
+from sym import Explorer, explore, show, lin, lin_sub, subterms
 from pat import called, canon, is_call, deref_all, strip_casts, unwrap_ok, agg_variant
 from mir import natural_loops
 from panics import base_of
@@ -774,3 +774,75 @@ def w_pair(ctx, run, rule='R05.14', only=None, floor=None):
         n_ok += good
     if floor is not None:
         run.floor(rule, 'calls passing a (header, bytes) pair', n_ok, floor)
+
+
+# ------------------------------------------------------------------ R05.18 the container iterators end only when they are exhausted
+
+def r05_18(ctx, run, rule='R05.18', floor=3):
+    """`next` of the container iterators (array elements, object keys, object entries) answers None only because the elements are used up
+    (index >= count, or the queue of key entries is empty) or because an entry word could not be read.  A None decided by comparing a
+    payload offset with the buffer length is read as well: `offset > len` can only hold for truncated input, but `offset >= len` also
+    holds for a well-formed last element whose payload is empty (true / false / null / "" / [] at the end of the buffer) and silently
+    drops it; any other reason for None is undecided."""
+    f = ctx.facts
+    n = 0
+    for p, b in sorted(f.bodies.items()):
+        if not (p.endswith('::next') and 'iterator::' in p and 'Iterator' in p) or b.kind == 'Promoted' or '{closure' in p:
+            continue
+        n += 1
+        ps, capped = explore(b)
+        loc = f'{b.file}:{b.line}'
+        verdicts = []
+        for q in ps:
+            if q.end[0] != 'return' or q.ret is None:
+                continue
+            r = deref_all(q.ret)
+            if is_call(r, 'FromResidual::from_residual'):
+                continue                   # `?` on a failed read
+            if not (agg_variant(r) and r[1][2] == 'None'):
+                continue
+            if not q.conds:
+                verdicts.append(('bad', 'None is returned unconditionally'))
+                continue
+            c = q.conds[-1]
+            t = deref_all(c[0])
+            # exhaustion: idx >= length / pop_front() is None / a read failed
+            if t[0] == 'discr' and deref_all(t[1])[0] == 'call' and canon(deref_all(t[1])[1]).split('::')[-1] in ('pop_front', 'pop', 'next', 'branch', 'ok', 'get', 'read_u32'):
+                verdicts.append(('ok', 'queue / read exhausted'))
+                continue
+            if t[0] == 'bin' and t[1] in ('Ge', 'Gt', 'Le', 'Lt', 'Eq'):
+                a, d = deref_all(strip_casts(t[2])), deref_all(strip_casts(t[3]))
+                names = [x[2] for x in (a, d) if x[0] == 'field']
+                haslen = [x for x in (a, d) if x[0] == 'len' or (x[0] == 'call' and called(x[1], 'slice::len', 'len'))]
+                if len(names) == 2 and not haslen:
+                    verdicts.append(('ok', f'{names[0]} against {names[1]}'))       # idx vs length: two fields of the iterator
+                    continue
+                if haslen and len(names) == 1 and isinstance(c[2], bool):
+                    # offset OP len(value) (or len OP offset): does the None branch include offset == len ?
+                    op = t[1]
+                    off_left = a[0] == 'field'
+                    holds = c[2]
+                    # normalise to a relation "offset REL len" that holds on this path
+                    rel = {'Ge': '>=', 'Gt': '>', 'Le': '<=', 'Lt': '<', 'Eq': '=='}[op]
+                    if not off_left:
+                        rel = {'>=': '<=', '>': '<', '<=': '>=', '<': '>', '==': '=='}[rel]
+                    if not holds:
+                        rel = {'>=': '<', '>': '<=', '<=': '>', '<': '>=', '==': '!='}[rel]
+                    if rel == '>':
+                        verdicts.append(('ok', f'{names[0]} beyond the end of the buffer (truncated input only)'))
+                    elif rel in ('>=', '=='):
+                        verdicts.append(('bad', f'None is returned when {names[0]} {rel} the buffer length: a last element with an empty payload (true, false, null, "", an empty '
+                                                'container word) starts exactly at the end of the buffer and is dropped'))
+                    else:
+                        verdicts.append(('und', f'None under {names[0]} {rel} len'))
+                    continue
+            verdicts.append(('und', f'None is returned under {show(t)[:60]} {c[1]} {c[2]}'))
+        bad = [w for v, w in verdicts if v == 'bad']
+        und = [w for v, w in verdicts if v == 'und']
+        if bad:
+            run.violation(rule, p, 'none-paths', bad[0], loc)
+        elif und or capped or not verdicts:
+            run.undecided(rule, p, 'none-paths', (und[0] if und else 'no None-returning path was read') + ': whether the iterator can end before its elements are used up is not decided', loc)
+        else:
+            run.proved(rule, p, 'none-paths', f'{len(verdicts)} None path(s): exhaustion or a failed read only', loc)
+    run.floor(rule, 'container iterator next() bodies', n, floor)
